@@ -161,3 +161,64 @@ def path_custom_value(ctx, arg):
         ctx.tag('returned')
     except Panic as e:
         ctx.violation(clause='panic', site='get_custom_value', value=mv(w.get_model(), key), detail=str(e), vkey='panic|get_custom_value')
+
+
+MAX_GIT_CALLS = 40
+
+
+def path_git_fault(ctx, arg):
+    """any single git sub-command failing: `get_vcs_data` (+ `vcs_data_to_zerv_vars`) against the C02 git stub, where the
+    git call with a solver-chosen index returns Err(CommandFailed) — the extraction must return Ok or Err, never panic"""
+    import c02
+    I, w = ctx.I, ctx.w
+    wd = c02.GitWorld(ctx, arg)
+    wd.fail_at = w.fresh_int('fail_at', 0, MAX_GIT_CALLS)
+    wd.failed = None
+    c02.WORLD[0] = wd
+    fmt = arg['fmt']
+
+    def viol(stage, e):
+        m = w.get_model()
+        ctx.violation(clause='panic', site='git_fault', stage=stage, world=wd.concrete(m), fmt=fmt, failed=wd.failed,
+                      fail_at=m.eval(wd.fail_at, model_completion=True).as_long(), calls=len(wd.log), detail=str(e),
+                      vkey='panic|git_fault|%s|%s' % (stage, (wd.failed or (0, ['none']))[1][0]))
+    vcs = Adt('GitVcs', 0, [mkstring('/repo-under-test')])
+    try:
+        r = I.call('<GitVcs as Vcs>::get_vcs_data', [ValPtr(vcs), Str(c02.txt(fmt))])
+    except Panic as e:
+        viol('get_vcs_data', e)
+        return
+    finally:
+        c02.WORLD[0] = None
+    if len(wd.log) > MAX_GIT_CALLS:
+        raise Unsupported('more git calls than the fault index range covers')
+    if wd.failed is None:
+        ctx.tag('no_fault_reached')
+    else:
+        ctx.tag('fault:' + ' '.join(a for a in wd.failed[1][:2] if not a.startswith('v') and len(a) < 14))
+    if r.variant != 0:
+        if wd.failed is None:
+            ctx.violation(clause='panic', site='git_fault', stage='spurious_error', world=wd.concrete(w.get_model()), fmt=fmt, failed=None, fail_at=-1, calls=len(wd.log),
+                          detail='extraction failed although no git command failed', vkey='panic|git_fault|spurious')
+        ctx.tag('returned_err')
+        return
+    ctx.tag('returned_ok')
+    try:
+        I.call('vcs_data_to_zerv_vars', [deep_copy(r.fields[0]), Str(c02.txt(fmt))])
+        ctx.tag('vars_returned')
+    except Panic as e:
+        viol('vcs_data_to_zerv_vars', e)
+
+
+def git_fault_cases(tier):
+    import c02
+    q = tier == 'quick'
+    out = []
+    for name, (tags, fmts) in c02.MENUS.items():
+        if q and name not in ('semver_order', 'mixed', 'invalid_only'):
+            continue
+        for fmt in (fmts[:1] if q else fmts):
+            for k in ((2,) if q else (1, 2, 3)):
+                out.append(dict(name=name, fmt=fmt, commits=k, tags=tags[:3] if q else tags, branch=list('main'), status_len=k % 2))
+    out.append(dict(name='mixed', fmt='auto', shape='diamond', commits=4, tags=c02.MENUS['mixed'][0][:2 if q else 4], branch=None, status_len=0))
+    return out
